@@ -846,8 +846,38 @@ theorem buildAny_statePure {cfg : Config} {mode : KeyMode} {f : Nat} {ctx : Ctx}
 /-- forget the memo table -/
 def Acc.erase (a : Acc) : Acc := { a with st := { a.st with memo := [] } }
 
-theorem stepTail_erase (cfg : Config) (mode : KeyMode) (inject : Option (List (String × GateDef))) (acc : Acc) (o : Obj)
-    (s : St) :
+/-- what a successful `usepulses` step is: nothing but a record of the statement when autoload is off; otherwise no
+statement or macro has been built yet, the module exists, and both gate tables are updated and the memo table reset -/
+theorem stepTail_usepulses_ok {cfg : Config} {mode : KeyMode} {inject : Option (List (String × GateDef))} {acc a1 : Acc}
+    {n : String} {st : St} (h : stepTail cfg mode inject acc (.usepulses n) st = .ok a1) :
+    (cfg.autoload = false ∧ a1 = { acc with st := st, usepulses := acc.usepulses ++ [n] }) ∨
+    (cfg.autoload = true ∧ (mode ≠ .noReset → acc.stmts = [] ∧ acc.macros = []) ∧ ∃ gs, cfg.imports n = some gs ∧
+      a1 = { acc with st := { memo := if mode = .noReset then st.memo else [],
+                              gctx := updateGates GEntry.gdef inject gs st.gctx },
+                      usepulses := acc.usepulses ++ [n], natives := updateGates id inject gs acc.natives }) := by
+  simp only [stepTail] at h
+  by_cases ha : cfg.autoload = true
+  · simp only [ha, if_true] at h
+    right
+    by_cases hne : (mode != .noReset && (!acc.stmts.isEmpty || !acc.macros.isEmpty)) = true
+    · simp [hne, throw_eq] at h
+    · rw [if_neg hne] at h
+      have hs : mode ≠ .noReset → acc.stmts = [] ∧ acc.macros = [] := by
+        intro hm
+        cases h1 : acc.stmts <;> cases h2 : acc.macros <;> simp [h1, h2, hm] at hne ⊢
+      cases hi : cfg.imports n with
+      | none => simp [hi, throw_eq] at h
+      | some gs =>
+        simp only [hi, pure, Except.pure] at h
+        cases h
+        exact ⟨ha, hs, gs, rfl, rfl⟩
+  · simp only [ha] at h
+    cases h
+    left
+    exact ⟨by simpa using ha, rfl⟩
+
+theorem stepTail_erase (cfg : Config) (mode : KeyMode) (hmode : mode ≠ .noReset)
+    (inject : Option (List (String × GateDef))) (acc : Acc) (o : Obj) (s : St) :
     (stepTail cfg mode inject acc o s).map Acc.erase = stepTail cfg .off inject acc.erase o { s with memo := [] } := by
   cases o with
   | val v =>
@@ -868,9 +898,17 @@ theorem stepTail_erase (cfg : Config) (mode : KeyMode) (inject : Option (List (S
     simp only [stepTail]
     by_cases ha : cfg.autoload = true
     · simp only [ha, if_true]
-      cases cfg.imports n with
-      | none => rfl
-      | some gs => simp [Except.map, pure, Except.pure, Acc.erase]
+      have hm1 : (mode != KeyMode.noReset) = true := by simpa using hmode
+      have hm2 : (KeyMode.off != KeyMode.noReset) = true := by decide
+      simp only [hm1, hm2, Bool.true_and]
+      by_cases hne : (!acc.stmts.isEmpty || !acc.macros.isEmpty) = true
+      · have hne' : (!acc.erase.stmts.isEmpty || !acc.erase.macros.isEmpty) = true := hne
+        rw [if_pos hne, if_pos hne']; rfl
+      · have hne' : ¬ (!acc.erase.stmts.isEmpty || !acc.erase.macros.isEmpty) = true := hne
+        rw [if_neg hne, if_neg hne']
+        cases cfg.imports n with
+        | none => rfl
+        | some gs => simp [Except.map, pure, Except.pure, Acc.erase]
     · simp only [ha]; rfl
 
 /-- every step of `build_circuit` keeps the memo table valid: the table survives additions to the gate context, and
@@ -900,17 +938,10 @@ theorem stepTail_memoOK {cfg : Config} {inject : Option (List (String × GateDef
   | stmt st => cases h; exact hm
   | case => cases h
   | usepulses n =>
-    simp only [stepTail] at h
-    by_cases ha : cfg.autoload = true
-    · simp only [ha, if_true] at h
-      cases hi : cfg.imports n with
-      | none => simp [hi, throw_eq] at h
-      | some gs =>
-        simp [hi, pure, Except.pure] at h
-        rw [← h]
-        intro k s0 hk
-        cases hk
-    · simp only [ha] at h; cases h; exact hm
+    rcases stepTail_usepulses_ok h with ⟨_, rfl⟩ | ⟨_, _, gs, _, rfl⟩
+    · exact hm
+    · intro k s0 hk
+      cases hk
 
 theorem map_erase_congr {r r' : M Acc} (h : r.map Acc.erase = r'.map Acc.erase) :
     (∃ e, r = .error e ∧ r' = .error e) ∨ (∃ a a', r = .ok a ∧ r' = .ok a' ∧ a.erase = a'.erase) := by
@@ -959,7 +990,7 @@ theorem circuitLoop_sim (cfg : Config) (inject : Option (List (String × GateDef
         subst ho
         have htail : (stepTail cfg .new inject acc o s).map Acc.erase
             = (stepTail cfg .off inject acc' o s').map Acc.erase := by
-          rw [stepTail_erase, stepTail_erase, he]
+          rw [stepTail_erase _ _ (by decide), stepTail_erase _ _ (by decide), he]
           have : ({ s with memo := [] } : St) = { s' with memo := [] } := by
             cases s; cases s'; simp_all
           rw [this]
